@@ -29,6 +29,11 @@ RULE = ('cases = (kind in {sbo, std::string, fixed array, spilling array}, capac
         'append(bytes)/append(cstr)/append(n,c)/append(number)/appendFormat(literal,%s,%d,%%,%c with literal prefix/suffix)/resize/clear); '
         'piece lengths drawn from {0,1,room-1,room,room+1,62,63,64,65,200} where room = free space of the current representation '
         '(63-used inline, cap-1-used for arrays), format bodies padded to those lengths, run lengths 2^64-1.. only for the fixed kind; '
+        'plus a fixed stream "length-wraps" (~3000 cases of <= 3 ops): ONE piece of length 255..257, 318..320, 511..513, 575, 576, 1000, '
+        '4095..4097, 65535..65537 and 256*j + room (+-1) for j in {1,2,16,256}, for every builder kind (inline with 0/1/7/62/63 chars used, '
+        'std::string, fixed and spilling arrays of capacity 0/1/8/64/L..L+2) and every flavour (bytes, cstr, run, resize, literal format, '
+        '%s, literal+%s, %d, %c, %%), and 2^16/2^31/2^32/2^63 + room (+-1) runs/resizes on fixed arrays; the random stream draws a length '
+        'from {255..257, 300, 319, 320, 511..513, 575, 576, 256+room(+-1), 512+room(+1)} with probability 0.06; '
         'non-trivial = at least one op changed the text or was truncated; distinct = distinct case tuples')
 TRUSTED_BASE = ['std::string (append/resize/reserve/c_str/operator[]) modelled as an unbounded list',
                 'vsnprintf modelled on the already formatted text: writes min(len, cap-1) chars + NUL when cap > 0, returns len',
